@@ -25,6 +25,7 @@ type FnResult struct {
 	CoverOK     bool
 	CoverAnswer string
 	HasContract bool
+	NewLoopHelpers []string // exempted new helpers with loops this function's obligations were generated through
 	SolverSecs  float64
 	RetReach    string
 	frame       *Frame
@@ -181,6 +182,7 @@ func (e *Engine) verifyFnOnce(fn *ssa.Function, opts *VCOpts, post func(fr *Fram
 		rr = append(rr, r.reach)
 	}
 	res.RetReach = sOr(rr...)
+	res.NewLoopHelpers = sortedKeys(q.newLoopHelpers)
 	res.Obls = q.obls
 	for _, n := range sortedKeys(q.notes) {
 		res.Notes = append(res.Notes, n)
